@@ -772,6 +772,11 @@ static void reb_integrator_trace_step(struct reb_simulation* const r){
                             y[i*6+5] = p.vz;
                         }
 
+                        // In case of overshoot
+                        if ((r->t+r->dt)*dtsign >  t_needed*dtsign){
+                            r->dt = t_needed-r->t;
+                        }
+
                         int success = reb_integrator_bs_step(r, r->dt);
                         if (success){
                             r->t += r->dt;
